@@ -137,6 +137,7 @@ func run(c *harness.Ctx, i int) {
 	uncompressed := rng.Intn(2) == 0
 	useAuth := rng.Intn(3) != 0
 	authVia := []string{"flag", "env"}[rng.Intn(2)]
+	skipVerifyRead := rng.Intn(2) == 0
 	c.Info("server=%s via=%s writable=%v verify-write=%v uncompressed=%v auth=%v(%s)", server, via, writable, verifyWrite, uncompressed, useAuth, authVia)
 	c.LogInfo()
 
@@ -210,7 +211,7 @@ func run(c *harness.Ctx, i int) {
 			if server == "chunk" {
 				cfgFile := filepath.Join(dir, "config.json")
 				dsu.WriteFile(cfgFile, []byte(fmt.Sprintf(`{"store-options": {%q: {"uncompressed": %v}}}`, served, uncompressed)))
-				args = []string{"--config", cfgFile, "chunk-server", "-s", served, "-l", addr, fmt.Sprintf("--skip-verify-write=%v", !verifyWrite), "--skip-verify-read=false"}
+				args = []string{"--config", cfgFile, "chunk-server", "-s", served, "-l", addr, fmt.Sprintf("--skip-verify-write=%v", !verifyWrite), fmt.Sprintf("--skip-verify-read=%v", skipVerifyRead)}
 				if uncompressed {
 					args = append(args, "-u")
 				}
@@ -293,6 +294,7 @@ func run(c *harness.Ctx, i int) {
 	methods := []string{"GET", "HEAD", "PUT", "PUT-bad", "POST", "DELETE", "PATCH", "OPTIONS"}
 	auths := authCases()
 	nreq := 60
+	polluted := false
 	for r := 0; r < nreq; r++ {
 		pc := paths[rng.Intn(len(paths))]
 		method := methods[rng.Intn(len(methods))]
@@ -373,8 +375,13 @@ func run(c *harness.Ctx, i int) {
 				return
 			}
 		}
+		// with write verification disabled a mismatching upload is legitimately accepted; from then on the store may
+		// hold (and a non-verifying server may serve) bytes that do not hash to their name
+		if server == "chunk" && method == "PUT-bad" && !verifyWrite && resp.status == 200 {
+			polluted = true
+		}
 		// (4) a 200 GET body is exactly the requested object
-		if m == "GET" && resp.status == 200 {
+		if m == "GET" && resp.status == 200 && !(server == "chunk" && polluted) {
 			if server == "chunk" {
 				data := resp.body
 				var derr error
